@@ -223,6 +223,39 @@ func c11r3(c *Ctx) {
 			if o := calleeObj(call); o != nil && o.Name() == "Contains" && len(call.Call.Args) > 0 && fieldOfLoad(call.Call.Args[0]) == refs {
 				verifiedCall = call
 			}
+			// a (nil-safe) accessor: a bool function every result of which is `false` or that very Contains test
+			if g := call.Call.StaticCallee(); g != nil && g.Blocks != nil && isIstioFunc(g) && verifiedCall == nil {
+				var inner ssa.Value
+				eachInstr(g, func(j ssa.Instruction) {
+					if c2, ok := j.(*ssa.Call); ok {
+						if o := calleeObj(c2); o != nil && o.Name() == "Contains" && len(c2.Call.Args) > 0 && fieldOfLoad(c2.Call.Args[0]) == refs {
+							inner = c2
+						}
+					}
+				})
+				if inner != nil {
+					okAll := true
+					eachInstr(g, func(j ssa.Instruction) {
+						r, ok := j.(*ssa.Return)
+						if !ok || len(r.Results) != 1 {
+							return
+						}
+						var ls []ssa.Value
+						phiLeaves(retVal(r, 0), map[ssa.Value]bool{}, &ls)
+						for _, l := range ls {
+							if b, isC := constBool(l); isC && !b {
+								continue
+							}
+							if l != inner {
+								okAll = false
+							}
+						}
+					})
+					if okAll {
+						verifiedCall = call
+					}
+				}
+			}
 		}
 	})
 	c.Check("same-namespace predicate compares the secret's namespace with the VERIFIED identity's", fn.Pos(), sameNs != nil, "no comparison r.Namespace == proxy.VerifiedIdentity.Namespace")
